@@ -131,7 +131,7 @@ func TestC17Messages(t *testing.T) {
 	}
 	rapid.Check(t, func(rt *rapid.T) {
 		c := &c17ctx{rt: rt, revs: revs, st: st}
-		which := rapid.IntRange(0, 9).Draw(rt, "message")
+		which := rapid.IntRange(0, 10).Draw(rt, "message")
 		switch which {
 		case 0:
 			c.clientHello()
@@ -151,6 +151,8 @@ func TestC17Messages(t *testing.T) {
 			c.exception()
 		case 9:
 			c.tableColumns()
+		case 10:
+			c.schemaBlock()
 		}
 	})
 }
@@ -477,6 +479,66 @@ func (c *c17ctx) blockHeader() {
 		return nil
 	})
 	c.st.Case(stats.Hash("blk", fmt.Sprintf("%+v", blk)), true, func() any { return map[string]any{"kind": "BlockHeader", "msg": fmt.Sprintf("%+v", blk)} })
+}
+
+// schemaBlock: the block header followed by column descriptors only - the zero-row block
+// that announces a schema (INSERT column info, result header). Its encoding is header, then
+// per column name, type and (from 54454) the custom-serialization flag.
+func (c *c17ctx) schemaBlock() {
+	rt := c.rt
+	cols, _ := drawBlockRows(rt, 5, rapid.Just(0))
+	info := ref.BlockInfo{Overflows: rapid.Bool().Draw(rt, "overflows"), BucketNum: rapid.Int32().Draw(rt, "bucket")}
+	model := refBlock(cols, info)
+	c.forRevs("SchemaBlock", nil, []int{ref.RevBlockInfo, ref.RevCustomSerialization}, func(rev int) error {
+		_, in := libInput(cols, false)
+		blk := proto.Block{Info: protoInfo(info), Columns: len(in), Rows: 0}
+		var b proto.Buffer
+		if err := blk.EncodeBlock(&b, rev, in); err != nil {
+			return err
+		}
+		e := &ref.Enc{NoMap: true}
+		ref.EncodeBlock(e, rev, model)
+		if !bytes.Equal(b.Buf, e.B) {
+			return fmt.Errorf("zero-row block %v: bytes differ from reference: lib %x ref %x", typeNames(cols), b.Buf, e.B)
+		}
+		// typed targets, raw decode without targets, and - with a sentinel appended - exact consumption
+		tcols, res := typedTargets(cols)
+		var got proto.Block
+		if err := decodeExact(b.Buf, false, func(r *proto.Reader) error { return got.DecodeBlock(r, rev, res) }); err != nil {
+			return fmt.Errorf("zero-row block %v into typed targets: %w", typeNames(cols), err)
+		}
+		if got.Columns != len(cols) || got.Rows != 0 {
+			return fmt.Errorf("zero-row block decoded as %d columns x %d rows", got.Columns, got.Rows)
+		}
+		for i, tc := range tcols {
+			if tc.Column().Rows() != 0 {
+				return fmt.Errorf("column %d has %d rows after a zero-row block", i, tc.Column().Rows())
+			}
+		}
+		allInfer := true
+		for _, col := range cols {
+			allInfer = allInfer && autoInferable(col.Kind.T.Name)
+		}
+		if allInfer {
+			var auto proto.Results
+			var g2 proto.Block
+			if err := decodeExact(b.Buf, false, func(r *proto.Reader) error { return g2.DecodeBlock(r, rev, auto.Auto()) }); err != nil {
+				return fmt.Errorf("zero-row block %v into inferred targets: %w", typeNames(cols), err)
+			}
+			if len(auto) != len(cols) {
+				return fmt.Errorf("inferred %d columns from a zero-row block of %d", len(auto), len(cols))
+			}
+			for i, rc := range auto {
+				if rc.Name != cols[i].Name || rc.Data.Type().Conflicts(proto.ColumnType(cols[i].Kind.T.Name)) {
+					return fmt.Errorf("inferred column %d is %q %s, sent %q %s", i, rc.Name, rc.Data.Type(), cols[i].Name, cols[i].Kind.T.Name)
+				}
+			}
+		}
+		return nil
+	})
+	c.st.Case(hashCols(cols, "schema", info.BucketNum, info.Overflows), true, func() any {
+		return map[string]any{"kind": "SchemaBlock", "columns": typeNames(cols)}
+	})
 }
 
 func (c *c17ctx) progress() {
